@@ -51,6 +51,13 @@ func genAgentStream(p *simkit.Plan, r *simkit.Rand, tier string) {
 	c["stderr_chatter"] = int64(simkit.Pick(r, []int{0, 0, 40}))
 	// Close is also called concurrently with SetTerminationDelay.
 	c["set_delay_during_close"] = int64(r.Intn(2))
+	// An agent that does not read its input, and a large Write still in flight
+	// (blocked on the full pipe) when Close is called.
+	if r.Chance(1, 4) {
+		c["no_read"] = 1
+		c["echo_bytes"] = 0
+	}
+	c["pending_write"] = int64(simkit.Pick(r, []int{0, 0, 1 << 20}))
 }
 
 type agentChild struct {
@@ -72,7 +79,7 @@ func execAgentStream(plan *simkit.Plan) *simkit.Result {
 		ctlR, ctlW, _ := os.Pipe()
 		evR, evW, _ := os.Pipe()
 		cmd.ExtraFiles = []*os.File{ctlR, evW} // fd 3: control, fd 4: events
-		cmd.Env = append(os.Environ(), fmt.Sprintf("VERIF_AGENT_GRANDCHILD=%d", c["grandchild"]), fmt.Sprintf("VERIF_AGENT_CHATTER=%d", c["stderr_chatter"]))
+		cmd.Env = append(os.Environ(), fmt.Sprintf("VERIF_AGENT_GRANDCHILD=%d", c["grandchild"]), fmt.Sprintf("VERIF_AGENT_CHATTER=%d", c["stderr_chatter"]), fmt.Sprintf("VERIF_AGENT_NOREAD=%d", c["no_read"]))
 		var stderrBuf lockedBuffer
 		var stderrReceiver io.Writer
 		if c["stderr"] == 1 {
@@ -101,8 +108,12 @@ func execAgentStream(plan *simkit.Plan) *simkit.Result {
 				}
 			}
 		}()
+		grandchild := 0
 		defer func() {
 			// Whatever happened, leave no process behind.
+			if grandchild > 0 {
+				syscall.Kill(grandchild, syscall.SIGKILL)
+			}
 			syscall.Kill(pid, syscall.SIGKILL)
 			ctlW.Close()
 			evR.Close()
@@ -135,6 +146,15 @@ func execAgentStream(plan *simkit.Plan) *simkit.Result {
 			child.control.Write([]byte("exit\n"))
 			if !waitEvent("gone", 5*time.Second) {
 				panic(fmt.Sprintf("the helper did not exit when told to (%s)", when))
+			}
+		}
+		if c["grandchild"] == 1 {
+			// The child names its grandchild first, so that it can be removed
+			// when the run is over (it outlives every bound of this scenario).
+			select {
+			case ev := <-child.evCh:
+				fmt.Sscanf(ev, "grandchild %d", &grandchild)
+			case <-time.After(10 * time.Second):
 			}
 		}
 		if !waitEvent("ready", 10*time.Second) {
@@ -172,6 +192,12 @@ func execAgentStream(plan *simkit.Plan) *simkit.Result {
 			}
 		}
 		defer func() { verif.YieldHook = nil }()
+		if n := int(c["pending_write"]); n > 0 {
+			// A writer that is still busy (blocked, if the agent does not read)
+			// when Close is called; closing must release it, not wait for it.
+			go stream.Write(make([]byte, n))
+			time.Sleep(20 * time.Millisecond)
+		}
 		type closeResult struct{ err error }
 		closed := make(chan closeResult, 1)
 		start := time.Now()
@@ -181,7 +207,7 @@ func execAgentStream(plan *simkit.Plan) *simkit.Result {
 		}
 		// Worst case: the delay, one second after closing the input, one second
 		// after SIGTERM, then the kill; generous slack for a loaded machine.
-		limit := time.Duration(c["delay_ms"])*time.Millisecond + 2*time.Second + 8*time.Second
+		limit := time.Duration(c["delay_ms"])*time.Millisecond + 2*time.Second + 5*time.Second
 		timeout := time.After(limit)
 		var closeErr error
 		sawEOF, sawTerm := false, false
